@@ -95,4 +95,46 @@ def specRun (spec : Nat → Option Entry) : List Op → (Nat → Option Entry)
   | [] => spec
   | op :: ops => specRun (specStep spec op) ops
 
+/-! ## elems behind pointers
+
+The shard map holds pointers to elems. `Cache.Get` fetches the pointer under the
+shard's read lock, releases the lock and only then reads the elem's fields, so
+any number of operations of other goroutines run between the fetch and the
+read. `Cache.step` above treats the lookup as one atomic step; that is sound
+exactly when an elem is never written after it was put into the map. Whether
+the code writes to elems anywhere but at their creation is a regenerated fact
+(`recycle` below is its negation). -/
+
+structure Cell where
+  val : Nat
+  exp : Nat
+  deriving DecidableEq, Repr
+
+structure ElemHeap where
+  cell : Nat → Cell        -- contents of the elem at an address
+  next : Nat               -- addresses from `next` on were never handed out
+  pool : List Nat          -- swept elems waiting to be reused (stays empty unless `recycle`)
+
+/-- what other goroutines do to the elems between a lookup's fetch and its read -/
+inductive HOp where
+  | store (val exp : Nat)  -- `Store`: obtain an elem and fill it (its address then goes into the map)
+  | sweep (a : Nat)        -- the expiry sweep removes the map entry pointing to `a`
+  deriving Repr
+
+def ElemHeap.write (h : ElemHeap) (a : Nat) (c : Cell) : ElemHeap := { h with cell := fun x => if x = a then c else h.cell x }
+
+def ElemHeap.step (recycle : Bool) (h : ElemHeap) : HOp → ElemHeap
+  | .store v e =>
+    match (if recycle then h.pool else []) with
+    | a :: rest => { h.write a ⟨v, e⟩ with pool := rest }
+    | [] => { h.write h.next ⟨v, e⟩ with next := h.next + 1 }
+  | .sweep a => if recycle then { h.write a ⟨0, (h.cell a).exp⟩ with pool := a :: h.pool } else h
+
+def ElemHeap.run (recycle : Bool) (h : ElemHeap) (ops : List HOp) : ElemHeap := ops.foldl (ElemHeap.step recycle) h
+
+/-- the second half of `Cache.Get`: read the fetched elem after `between` ran, hide it if expired -/
+def readFetched (recycle : Bool) (h : ElemHeap) (a : Nat) (between : List HOp) (now : Nat) : Ret :=
+  let c := ((h.run recycle between).cell a)
+  if c.exp < now then .miss else .hit c.val c.exp
+
 end Model.C11
